@@ -13,7 +13,7 @@ func init() {
 	register("C10", "Decides structural necessary conditions of 'the ASN.1 fork is as strict as upstream; lax only adds acceptances': "+
 		"(R1) lax propagation — the set of parameters that receive the lax flag is exactly {checkInteger, parseInt64, parseInt32, parseBigInt, parseObjectIdentifier, parsePrintableString, parseSequenceOf}; at every call site of these the lax argument is the caller's own incoming flag (its lax parameter or params.lax), never a constant; every parseField call made by a function that has an incoming flag passes parameters whose lax field was set from it on all paths; the lax field is written only from an incoming flag or, in parseFieldParameters, as true under the tag part \"lax\"; Unmarshal is UnmarshalWithParams with the empty (strict) parameter string and the remainder is b[offset:]; "+
 		"(R2) monotonicity — lax-derived values condition branches only in checkInteger, parseObjectIdentifier, parsePrintableString; in each, for every valuation of all other branch atoms, what strict mode accepts lax mode accepts with the identical result, lax never rejects where strict accepts, and the outcomes differ only for the documented malformation (integer longer than one byte / empty OID / non-printable byte, accepted only if the bytes could be ISO 8859-1 or T.61); "+
-		"(R3) strict ≡ toolchain — with every lax operand replaced by false, each same-named function of asn1.go, common.go, marshal.go has the same multiset of rejection sites, error-propagating calls and returns under the same enclosing/preceding conditions, the same multiset of branch conditions (every if / for / range / switch clause, comparison orientation canonical) and the same multiset of assignments to named results and to variables that flow into returned values as encoding/asn1 of the toolchain that type-checks the repository, up to the frozen drift table in rules_c10.go (each entry with reason; acceptance-changing entries are marked); "+
+		"(R3) strict ≡ toolchain — with every lax operand replaced by false, each same-named function of asn1.go, common.go, marshal.go has the same multiset of rejection sites, error-propagating calls and returns under the same enclosing/preceding conditions, the same multiset of branch conditions (every if / for / range / switch clause, comparison orientation canonical; decisions in one normal form: tagless switch = if-chain, nested if = &&, a leaving `if a || b` = one if per disjunct, length > 0 = length != 0, keyed = positional struct literals, single-definition temporaries substituted) and the same multiset of assignments to named results and to variables that flow into returned values as encoding/asn1 of the toolchain that type-checks the repository, up to the frozen drift table in rules_c10.go (each entry with reason; acceptance-changing entries are marked); "+
 		"(R4) raw preservation — parseField stores RawValue.FullBytes and RawContent as bytes[initOffset:offset] (sub-slice of the input ending at the returned offset) and Bytes as its content suffix; makeField emits non-empty FullBytes verbatim, makeBody emits a leading non-empty RawContent minus its header, bytesEncoder copies verbatim. "+
 		"NOT covered: acceptance/value equality with encoding/asn1 on all inputs (only that no check, propagation or return differs structurally), code without a rejection/return site (offset arithmetic, reflect stores), marshal∘unmarshal identity, absence of panics, allocation bounds, the semantics of reflect. The R3 verdict is relative to the installed toolchain's encoding/asn1 (version recorded in the assumptions).",
 		runC10)
@@ -389,11 +389,21 @@ func c10R4(r *Run) {
 		}
 	}
 	if fn := r.Fn("asn1.makeField"); fn != nil {
-		r.ExpectStores(fn, "makeField:rv", "new:asn1.RawValue#*", "(reflect.Value).Interface(p0).(asn1.RawValue)", 1)
-		r.FailEdge(fn, "makeField", EdgeSpec{Name: "FullBytes-set", Atom: ordAtomR("len(new:asn1.RawValue#*.FullBytes)", "0"), Bad: ">",
+		// rv := v.Interface().(RawValue): held in a local; the local reads as the value it holds
+		// when it is only a copy (desc.structSpill), as new:asn1.RawValue#n otherwise
+		rv := ""
+		eachInstr(fn, func(in ssa.Instruction) {
+			if st, ok := in.(*ssa.Store); ok {
+				if a, ok := st.Addr.(*ssa.Alloc); ok && r.D.D(st.Val) == "(reflect.Value).Interface(p0).(asn1.RawValue)" {
+					rv = selBase(r.D.D(a))
+				}
+			}
+		})
+		r.Check("makeField:rv", rv != "", r.FnPos(fn), "rv holds v.Interface().(RawValue): "+rv)
+		r.FailEdge(fn, "makeField", EdgeSpec{Name: "FullBytes-set", Atom: ordAtomR("len("+rv+".FullBytes)", "0"), Bad: ">",
 			Want: func(r *Run, ret *ssa.Return) (bool, string) {
 				d := r.D.D(ret.Results[0])
-				return glob("new:asn1.RawValue#*.FullBytes", d) && errKind(ret.Results[1]) == "nil", "returns (" + d + ", " + errKind(ret.Results[1]) + "), want (bytesEncoder(rv.FullBytes), nil)"
+				return d == rv+".FullBytes" && errKind(ret.Results[1]) == "nil", "returns (" + d + ", " + errKind(ret.Results[1]) + "), want (bytesEncoder(rv.FullBytes), nil)"
 			}})
 	}
 	if fn := r.Fn("asn1.makeBody"); fn != nil {
